@@ -27,6 +27,7 @@ import (
 	"strconv"
 	"strings"
 	"sync"
+	"sync/atomic"
 	"time"
 
 	"git.arvados.org/arvados.git/sdk/go/arvados"
@@ -295,6 +296,10 @@ type tokenRow struct {
 // afterwards: the fake database driver reads it from client tasks.
 type tokenTable struct {
 	rows []tokenRow
+	// fault: the failAt-th query of the run (1-based; 0 = never) fails with a connection error
+	// after the connection had been established and pinged (drawn on the root before the run)
+	failAt  int32
+	queries int32
 }
 
 func (t *tokenTable) bySecret(secret string) *tokenRow {
@@ -350,6 +355,12 @@ func (c *fakeConn) Ping(context.Context) error { return nil }
 func (c *fakeConn) QueryContext(ctx context.Context, q string, args []driver.NamedValue) (driver.Rows, error) {
 	if !strings.Contains(q, "FROM api_client_authorizations") || len(args) != 1 {
 		return nil, fmt.Errorf("fake db: unsupported query %q", q)
+	}
+	if n := atomic.AddInt32(&c.t.queries, 1); c.t.failAt > 0 && n == c.t.failAt {
+		if w := vsim.Cur(); w != nil {
+			w.Fault("database-query-error")
+		}
+		return nil, fmt.Errorf("fake db: read tcp 10.0.0.1:5432: connection reset by peer")
 	}
 	secret, _ := args[0].Value.(string)
 	rows := &fakeRows{}
